@@ -81,6 +81,15 @@ class Abort(Exception):
     pass
 
 
+class AbortBase(BaseException):
+    pass
+
+
+# what the writing code may raise inside a "with tagcontext": not only subclasses of Exception (sys.exit(), Ctrl-C, a generator
+# closed early); the choice is a function of the program, the outcome must not depend on it
+RAISED = (Abort, AbortBase, SystemExit, KeyboardInterrupt, GeneratorExit)
+
+
 def run_impl(prog, whitespace=True):
     from giscanner.xmlwriter import XMLWriter
     w = XMLWriter()
@@ -102,12 +111,12 @@ def run_impl(prog, whitespace=True):
         elif k == 'pop':
             w.pop_tag()
         elif k == 'raise':
-            raise Abort()
+            raise RAISED[len(repr(prog)) % len(RAISED)]()
     raised = False
     try:
         for s in prog:
             ex(s)
-    except (Abort, IndexError):
+    except RAISED + (IndexError,):
         raised = True
     return w.get_xml(), raised
 
